@@ -157,13 +157,31 @@ def run(res):
         res.violation("C03 value differential: {{ %s }} with data %s: %s (generated=%s reference=%s)" % (
             e["wxml"], json.dumps(d)[:300], msg, json.dumps(gv)[:200], json.dumps(rv)[:200]),
             {"wxml": e["wxml"], "src": e["src"], "reference_js": e["ref"], "data": d, "generated": gv, "reference": rv})
+    # string escapes: the value the parser assigns to a literal = the value JavaScript (strict mode) assigns to the same
+    # literal text, whenever JavaScript accepts it and the parser raises nothing at Error level
+    pj = harness_run(["wxscan_js", res.tier, res.seed])
+    rows = [json.loads(l) for l in pj.stdout.decode("utf8").split("\n") if l]
+    outj = node_jobs([{"op": "eval", "id": i, "expr": "'" + r0["body"] + "'", "data": {"$o": {}}} for i, r0 in enumerate(rows)])
+    n_js = 0
+    f_js = 0
+    for r0, o in zip(rows, outj):
+        if o.get("error") or o.get("skip") or r0["level"] >= 3 or r0["value"] is None or not isinstance(o.get("value"), str):
+            continue
+        n_js += 1
+        impl = "".join(chr(c) for c in r0["value"])
+        if impl != o["value"]:
+            f_js += 1
+            if f_js <= 3:
+                res.violation("string literal '%s' denotes %r in JavaScript, the parser reads %r" % (
+                    r0["body"].encode("unicode_escape").decode("ascii"), o["value"], impl), {"src": "<v a=\"{{'%s'}}\"/>" % r0["body"]})
+    res.notes["string_literal_vs_javascript"] = n_js
     # free identifiers denote the innermost enclosing template scope, then the data field (shared with C05)
     import scopeval
     f_sc, n_sc, _, _, _ = scopeval.check(res)
     res.notes["scope_resolution_evaluations"] = n_sc
     if not ok:
-        res.violation(what, {"obligation": "Properties/C03.v"}, no_input=not (bad or f_sc))
-    res.cov["evaluations"] = r["n"] + n_eval + n_sem + n_sc
+        res.violation(what, {"obligation": "Properties/C03.v"}, no_input=not (bad or f_sc or f_js))
+    res.cov["evaluations"] = r["n"] + n_eval + n_sem + n_sc + n_js
     res.cov["distinct_nontrivial"] = len(set(e["wxml"] for e in exprs if e["size"] >= 3))
     res.cov["rule"] = ("text correspondence: every (operator, operand position, child shape) combination to depth 2 plus random "
                        "expressions (depth <= 6) in attribute / model: / event-named attribute / text contexts; value differential: "
